@@ -362,11 +362,13 @@ class BaseState(ABC):
                     if isinstance(self, Polarization)
                     else self.envelope.polarization
                 )
-                out = state.measure(
-                    separate_measurement=True, destructive=destructive
-                )
-                for k, v in out.items():
-                    result[1][k] = v
+                # A partner which was already destroyed cannot be measured again
+                if not state.measured:
+                    out = state.measure(
+                        separate_measurement=True, destructive=destructive
+                    )
+                    for k, v in out.items():
+                        result[1][k] = v
 
         if C.contractions and not destructive:
             self.contract()
